@@ -57,60 +57,60 @@ mod set_reach__run;
 mod set_reach__redecl;
 mod bset__topar;
 mod opt_lat__pari;
-mod bool_lat__par;
-mod lat_multi_improve__to;
-mod lat_count_all__par;
-mod lat_input__to;
-mod lat_input__srcto;
-mod count_paths__pari;
-mod count_paths__src2;
-mod neg_basic__par;
-mod neg_basic__src1;
-mod neg_basic__perm1;
-mod agg_minmaxsum__pari;
-mod agg_lattice__pari;
-mod neg_rec_after__pari;
-mod agg_empty__pari;
-mod agg_const_args__ser;
-mod disj__ser;
-mod disj__src0;
-mod disj__srcpar;
-mod disj_nested__par;
-mod pat_args__exppar;
-mod multi_head_disj__pari;
-mod mac_basic__ser;
-mod mac_basic__src0;
-mod mac_basic__srcpar;
-mod mac_nested__ser;
-mod mac_gensym_disj__exp;
-mod mac_block__par;
-mod mac_disj__exppar;
-mod stress_rel__par;
-mod rnd_core_03__ser;
-mod rnd_core_05__pari;
-mod rnd_core_08__par;
-mod rnd_core_11__ser;
-mod rnd_core_13__pari;
-mod rnd_core_16__par;
-mod rnd_core_19__ser;
-mod rnd_core_21__pari;
-mod rnd_core_24__par;
-mod rnd_core_27__ser;
-mod rnd_core_29__pari;
-mod rnd_agg_02__par;
-mod rnd_agg_05__ser;
-mod rnd_agg_07__pari;
-mod rnd_agg_10__par;
-mod rnd_agg_13__ser;
-mod rnd_agg_15__pari;
-mod rnd_prec_02__pari;
-mod rnd_prec_04__ser;
-mod rnd_prec_05__to;
-mod rnd_prec_07__par;
-mod rnd_prec_08__topar;
-mod rnd_prea_03__par;
-mod rnd_prea_06__ser;
-mod rnd_prea_08__pari;
+mod lex_dual_lat__pari;
+mod lat_two_keys__par;
+mod lat_pre_join__par;
+mod lat_val_bound__par;
+mod lat_input__mrt;
+mod lat_input__init;
+mod count_paths__run;
+mod count_paths__redecl;
+mod neg_basic__topar;
+mod neg_basic__srcred;
+mod neg_basic__permpar;
+mod agg_depth__pari;
+mod agg_user__ser;
+mod agg_bound_mix__ser;
+mod agg_empty_rel__ser;
+mod agg_const_args__exp;
+mod disj__to;
+mod disj__srcto;
+mod disj__ren;
+mod disj_nested__exppar;
+mod rep_expr__pari;
+mod neg_in_disj__ser;
+mod mac_basic__to;
+mod mac_basic__srcto;
+mod mac_capture__ser;
+mod mac_nested__exp;
+mod mac_local_names__par;
+mod mac_block__exppar;
+mod stress_lat__pari;
+mod rnd_core_01__par;
+mod rnd_core_04__ser;
+mod rnd_core_06__pari;
+mod rnd_core_09__par;
+mod rnd_core_12__ser;
+mod rnd_core_14__pari;
+mod rnd_core_17__par;
+mod rnd_core_20__ser;
+mod rnd_core_22__pari;
+mod rnd_core_25__par;
+mod rnd_core_28__ser;
+mod rnd_core_30__pari;
+mod rnd_agg_03__par;
+mod rnd_agg_06__ser;
+mod rnd_agg_08__pari;
+mod rnd_agg_11__par;
+mod rnd_agg_14__ser;
+mod rnd_prec_01__pari;
+mod rnd_prec_03__ser;
+mod rnd_prec_04__to;
+mod rnd_prec_06__par;
+mod rnd_prec_07__topar;
+mod rnd_prea_01__pari;
+mod rnd_prea_04__par;
+mod rnd_prea_07__ser;
 
 fn lookup(name: &str) -> fn() -> Box<dyn Driven> {
    match name {
@@ -163,60 +163,60 @@ fn lookup(name: &str) -> fn() -> Box<dyn Driven> {
       "set_reach__redecl" => set_reach__redecl::make,
       "bset__topar" => bset__topar::make,
       "opt_lat__pari" => opt_lat__pari::make,
-      "bool_lat__par" => bool_lat__par::make,
-      "lat_multi_improve__to" => lat_multi_improve__to::make,
-      "lat_count_all__par" => lat_count_all__par::make,
-      "lat_input__to" => lat_input__to::make,
-      "lat_input__srcto" => lat_input__srcto::make,
-      "count_paths__pari" => count_paths__pari::make,
-      "count_paths__src2" => count_paths__src2::make,
-      "neg_basic__par" => neg_basic__par::make,
-      "neg_basic__src1" => neg_basic__src1::make,
-      "neg_basic__perm1" => neg_basic__perm1::make,
-      "agg_minmaxsum__pari" => agg_minmaxsum__pari::make,
-      "agg_lattice__pari" => agg_lattice__pari::make,
-      "neg_rec_after__pari" => neg_rec_after__pari::make,
-      "agg_empty__pari" => agg_empty__pari::make,
-      "agg_const_args__ser" => agg_const_args__ser::make,
-      "disj__ser" => disj__ser::make,
-      "disj__src0" => disj__src0::make,
-      "disj__srcpar" => disj__srcpar::make,
-      "disj_nested__par" => disj_nested__par::make,
-      "pat_args__exppar" => pat_args__exppar::make,
-      "multi_head_disj__pari" => multi_head_disj__pari::make,
-      "mac_basic__ser" => mac_basic__ser::make,
-      "mac_basic__src0" => mac_basic__src0::make,
-      "mac_basic__srcpar" => mac_basic__srcpar::make,
-      "mac_nested__ser" => mac_nested__ser::make,
-      "mac_gensym_disj__exp" => mac_gensym_disj__exp::make,
-      "mac_block__par" => mac_block__par::make,
-      "mac_disj__exppar" => mac_disj__exppar::make,
-      "stress_rel__par" => stress_rel__par::make,
-      "rnd_core_03__ser" => rnd_core_03__ser::make,
-      "rnd_core_05__pari" => rnd_core_05__pari::make,
-      "rnd_core_08__par" => rnd_core_08__par::make,
-      "rnd_core_11__ser" => rnd_core_11__ser::make,
-      "rnd_core_13__pari" => rnd_core_13__pari::make,
-      "rnd_core_16__par" => rnd_core_16__par::make,
-      "rnd_core_19__ser" => rnd_core_19__ser::make,
-      "rnd_core_21__pari" => rnd_core_21__pari::make,
-      "rnd_core_24__par" => rnd_core_24__par::make,
-      "rnd_core_27__ser" => rnd_core_27__ser::make,
-      "rnd_core_29__pari" => rnd_core_29__pari::make,
-      "rnd_agg_02__par" => rnd_agg_02__par::make,
-      "rnd_agg_05__ser" => rnd_agg_05__ser::make,
-      "rnd_agg_07__pari" => rnd_agg_07__pari::make,
-      "rnd_agg_10__par" => rnd_agg_10__par::make,
-      "rnd_agg_13__ser" => rnd_agg_13__ser::make,
-      "rnd_agg_15__pari" => rnd_agg_15__pari::make,
-      "rnd_prec_02__pari" => rnd_prec_02__pari::make,
-      "rnd_prec_04__ser" => rnd_prec_04__ser::make,
-      "rnd_prec_05__to" => rnd_prec_05__to::make,
-      "rnd_prec_07__par" => rnd_prec_07__par::make,
-      "rnd_prec_08__topar" => rnd_prec_08__topar::make,
-      "rnd_prea_03__par" => rnd_prea_03__par::make,
-      "rnd_prea_06__ser" => rnd_prea_06__ser::make,
-      "rnd_prea_08__pari" => rnd_prea_08__pari::make,
+      "lex_dual_lat__pari" => lex_dual_lat__pari::make,
+      "lat_two_keys__par" => lat_two_keys__par::make,
+      "lat_pre_join__par" => lat_pre_join__par::make,
+      "lat_val_bound__par" => lat_val_bound__par::make,
+      "lat_input__mrt" => lat_input__mrt::make,
+      "lat_input__init" => lat_input__init::make,
+      "count_paths__run" => count_paths__run::make,
+      "count_paths__redecl" => count_paths__redecl::make,
+      "neg_basic__topar" => neg_basic__topar::make,
+      "neg_basic__srcred" => neg_basic__srcred::make,
+      "neg_basic__permpar" => neg_basic__permpar::make,
+      "agg_depth__pari" => agg_depth__pari::make,
+      "agg_user__ser" => agg_user__ser::make,
+      "agg_bound_mix__ser" => agg_bound_mix__ser::make,
+      "agg_empty_rel__ser" => agg_empty_rel__ser::make,
+      "agg_const_args__exp" => agg_const_args__exp::make,
+      "disj__to" => disj__to::make,
+      "disj__srcto" => disj__srcto::make,
+      "disj__ren" => disj__ren::make,
+      "disj_nested__exppar" => disj_nested__exppar::make,
+      "rep_expr__pari" => rep_expr__pari::make,
+      "neg_in_disj__ser" => neg_in_disj__ser::make,
+      "mac_basic__to" => mac_basic__to::make,
+      "mac_basic__srcto" => mac_basic__srcto::make,
+      "mac_capture__ser" => mac_capture__ser::make,
+      "mac_nested__exp" => mac_nested__exp::make,
+      "mac_local_names__par" => mac_local_names__par::make,
+      "mac_block__exppar" => mac_block__exppar::make,
+      "stress_lat__pari" => stress_lat__pari::make,
+      "rnd_core_01__par" => rnd_core_01__par::make,
+      "rnd_core_04__ser" => rnd_core_04__ser::make,
+      "rnd_core_06__pari" => rnd_core_06__pari::make,
+      "rnd_core_09__par" => rnd_core_09__par::make,
+      "rnd_core_12__ser" => rnd_core_12__ser::make,
+      "rnd_core_14__pari" => rnd_core_14__pari::make,
+      "rnd_core_17__par" => rnd_core_17__par::make,
+      "rnd_core_20__ser" => rnd_core_20__ser::make,
+      "rnd_core_22__pari" => rnd_core_22__pari::make,
+      "rnd_core_25__par" => rnd_core_25__par::make,
+      "rnd_core_28__ser" => rnd_core_28__ser::make,
+      "rnd_core_30__pari" => rnd_core_30__pari::make,
+      "rnd_agg_03__par" => rnd_agg_03__par::make,
+      "rnd_agg_06__ser" => rnd_agg_06__ser::make,
+      "rnd_agg_08__pari" => rnd_agg_08__pari::make,
+      "rnd_agg_11__par" => rnd_agg_11__par::make,
+      "rnd_agg_14__ser" => rnd_agg_14__ser::make,
+      "rnd_prec_01__pari" => rnd_prec_01__pari::make,
+      "rnd_prec_03__ser" => rnd_prec_03__ser::make,
+      "rnd_prec_04__to" => rnd_prec_04__to::make,
+      "rnd_prec_06__par" => rnd_prec_06__par::make,
+      "rnd_prec_07__topar" => rnd_prec_07__topar::make,
+      "rnd_prea_01__pari" => rnd_prea_01__pari::make,
+      "rnd_prea_04__par" => rnd_prea_04__par::make,
+      "rnd_prea_07__ser" => rnd_prea_07__ser::make,
       _ => panic!("no such program variant in this shard: {}", name),
    }
 }
